@@ -49,9 +49,10 @@ Definition enc_obs (ev : event) (o : obs) : val :=
   | ESave _ _ | EDel _ | ETick _ => VL [VI 0]
   | ELogin _ _ | ERefresh _ | EApi _ _ _ _ _ _ => VL [VI (o_code o)]
   | ERtspOpen => VL [VI (o_id o)]
-  | ERtsp _ _ _ _ | EWsRtsp _ _ _ => VL [VI (o_code o); vbool (o_media o); VL (map VI (o_reg o))]
+  | ERtsp _ _ _ _ | EWsRtsp _ _ _ => VL [VI (o_code o); vbool (o_media o); VL (map VI (o_reg o)); VI (o_aux o)]
   | EWsOpen _ _ _ _ _ => VL [VI (o_code o); VI (o_aux o); vbool (o_media o); VI (o_id o)]
-  | EWsp _ _ _ | EHttp _ _ _ _ _ => VL [VI (o_code o); vbool (o_media o)]
+  | EWsp _ _ _ => VL [VI (o_code o); vbool (o_media o); VI (o_aux o)]
+  | EHttp _ _ _ _ _ => VL [VI (o_code o); vbool (o_media o)]
   end.
 
 Definition dec_obs (ev : event) (v : val) : obs :=
@@ -60,10 +61,11 @@ Definition dec_obs (ev : event) (v : val) : obs :=
   | ELogin _ _ | ERefresh _ | EApi _ _ _ _ _ _ => ob (as_int (nthv 0 v)) 0 false 0
   | ERtspOpen => ob 0 0 false (as_int (nthv 0 v))
   | ERtsp _ _ _ _ | EWsRtsp _ _ _ =>
-      {| o_code := as_int (nthv 0 v); o_aux := 0; o_media := as_bool (nthv 1 v); o_id := 0;
+      {| o_code := as_int (nthv 0 v); o_aux := as_int (nthv 3 v); o_media := as_bool (nthv 1 v); o_id := 0;
          o_reg := map as_int (as_list (nthv 2 v)) |}
   | EWsOpen _ _ _ _ _ => ob (as_int (nthv 0 v)) (as_int (nthv 1 v)) (as_bool (nthv 2 v)) (as_int (nthv 3 v))
-  | EWsp _ _ _ | EHttp _ _ _ _ _ => ob (as_int (nthv 0 v)) 0 (as_bool (nthv 1 v)) 0
+  | EWsp _ _ _ => ob (as_int (nthv 0 v)) (as_int (nthv 2 v)) (as_bool (nthv 1 v)) 0
+  | EHttp _ _ _ _ _ => ob (as_int (nthv 0 v)) 0 (as_bool (nthv 1 v)) 0
   end.
 
 Definition case_users (c : val) : list user := map dec_user (as_list (nthv 0 (nthv 0 c))).
@@ -106,3 +108,12 @@ Definition x_C11_predict_run (c : val) : val := VL [VI 0; VI 1; VI 1].
 Definition x_C11_predict_ok (v : val) : val :=
   let o := nthv 1 v in
   vbool (negb (as_bool (nthv 0 o)) && as_bool (nthv 1 o) && as_bool (nthv 2 o)).
+
+(* the strict oracle (decision on the served resource, no exclusion of the class of the known finding
+   path-check-differs-from-served): applied to the witness histories of that class only *)
+Definition x_C11_ok_strict (v : val) : val :=
+  let c := nthv 0 v in
+  let evs := case_events c in
+  let vs := as_list (nthv 1 v) in
+  vbool (Nat.eqb (length vs) (length evs) &&
+         ok_run_strict (case_watch c) (state0 (case_users c) (case_ext c)) evs (dec_run evs vs)).
